@@ -1445,11 +1445,11 @@ class Analysis:
         it = 0
         limit = max_iter * max(1, len(order))
         import time as _time
-        t_start = _time.time()
+        t_start = _time.process_time()          # CPU time of this worker: the verdict does not depend on how busy the machine is
         budget = getattr(self, "budget", None)
         while work:
             it += 1
-            if it > limit or (budget is not None and (it & 7) == 0 and _time.time() - t_start > budget):
+            if it > limit or (budget is not None and (it & 7) == 0 and _time.process_time() - t_start > budget):
                 self.diverged = True
                 break
             b = min(work, key=lambda x: idx.get(x, 1 << 30))
